@@ -1168,9 +1168,10 @@ class Interp:
 
     def split_var(self, test: ast.AST, env: Dict[str, V]) -> Optional[str]:
         k = id(test)
-        if k not in self._split_cache:
-            self._split_cache[k] = [x.id for x in ast.walk(test) if isinstance(x, ast.Name)]
-        for nm in self._split_cache[k]:
+        hit = self._split_cache.get(k)
+        if hit is None or hit[0] is not test:
+            hit = self._split_cache[k] = (test, [x.id for x in ast.walk(test) if isinstance(x, ast.Name)])
+        for nm in hit[1]:
             v = env.get(nm)
             if isinstance(v, Union) and 1 < len(v.alts) <= 8:
                 return nm
@@ -1712,12 +1713,15 @@ class Interp:
             key = None
             if all(isinstance(a, (Const, NumV)) for a in args) and all(isinstance(a, (Const, NumV)) for a in kwargs.values()):
                 key = (id(obj), fn.name, ci.name, tuple(a.value if isinstance(a, Const) else "num" for a in args), tuple(sorted((k, a.value if isinstance(a, Const) else "num") for k, a in kwargs.items())))
-                if key in self._method_cache:
-                    return self._method_cache[key]
-                self._method_cache[key] = Unknown(f"recursive call of {ci.name}.{fn.name}")
+                # the cache entry keeps the receiver alive: abstract objects are transient, and the id of a
+                # freed one can be handed to the next object (a stale hit then returns another object's result)
+                hit = self._method_cache.get(key)
+                if hit is not None and hit[0] is obj:
+                    return hit[1]
+                self._method_cache[key] = (obj, Unknown(f"recursive call of {ci.name}.{fn.name}"))
             r = self.call_function(fn, [obj] + args, self_obj=obj, owner=ci.name, kwargs=kwargs)
             if key is not None:
-                self._method_cache[key] = r
+                self._method_cache[key] = (obj, r)
             return r
         if hasattr(t, "bound_cls"):
             cname, (ci, fn) = t.bound_cls
